@@ -98,7 +98,9 @@ func (e *Engine) load(patterns []string, overlay map[string][]byte) error {
 	// well-known short names win over accidental duplicates
 	for _, wk := range []struct{ name, path string }{{"time", "time"}, {"metav1", "k8s.io/apimachinery/pkg/apis/meta/v1"}, {"corev1", "k8s.io/api/core/v1"},
 		{"execution", "github.com/furiko-io/furiko/apis/execution/v1alpha1"}, {"configv1alpha1", "github.com/furiko-io/furiko/apis/config/v1alpha1"},
-		{"apierrors", "k8s.io/apimachinery/pkg/api/errors"}, {"strings", "strings"}, {"sort", "sort"}, {"errors", "github.com/pkg/errors"}, {"fmt", "fmt"}, {"strconv", "strconv"}} {
+		{"apierrors", "k8s.io/apimachinery/pkg/api/errors"}, {"strings", "strings"}, {"sort", "sort"}, {"errors", "github.com/pkg/errors"}, {"fmt", "fmt"}, {"strconv", "strconv"},
+		{"coreerrors", "github.com/furiko-io/furiko/pkg/core/errors"}, {"jobtasks", "github.com/furiko-io/furiko/pkg/execution/tasks"},
+		{"jobconfig", "github.com/furiko-io/furiko/pkg/execution/util/jobconfig"}, {"jobutil", "github.com/furiko-io/furiko/pkg/execution/util/job"}} {
 		if p, ok := e.typesPkgs[wk.path]; ok {
 			e.pkgByName[wk.name] = p
 		}
